@@ -187,6 +187,39 @@ theorem c43_json {α : Type} (z : α) (toks : List (Option α)) :
 theorem c43_json_closed {α : Type} (j : JIt α) : (j.close.next).2 = false := by
   simp [JIt.close, JIt.next]
 
+/-- `ReadAllResults(ToResultIter(it))`: ToResultIter is `Map(it, wrap)` with a wrapper that never sets an
+error, so ReadAllResults is the drain loop of ReadAll WITHOUT the deferred Close: it returns exactly the
+abstract list and does not touch the underlying source's Close. -/
+theorem c43_readAllResults_toResult (sh : Shape) (st : State sh) :
+    (drain sh (remaining sh st + 1) st).2 = toList sh st ∧
+    (source sh (drain sh (remaining sh st + 1) st).1).closes = (source sh st).closes := by
+  refine ⟨?_, drain_closes sh _ st⟩
+  have h1 := drain_spec sh (remaining sh st + 1) st
+  have h2 := drain_done sh (remaining sh st + 1) st (by omega)
+  simp [h1, h2]
+
+def jsonResultsSpec {α : Type} : List (Option α) → Nat → List α → List α ⊕ Nat
+  | [], _, acc => .inl acc.reverse
+  | some v :: r, i, acc => jsonResultsSpec r (i + 1) (v :: acc)
+  | none :: _, i, _ => .inr i
+
+/-- ReadAllResults returns every value when all records are well formed, and otherwise reports the
+index of the first malformed record (and nothing after it is consumed). -/
+theorem c43_json_readAllResults {α : Type} (z : α) (toks : List (Option α)) :
+    ∀ (v : α) (e : Bool) (i : Nat) (acc : List α),
+      JIt.readAllResults (toks.length + 1) { zero := z, toks := toks, done := false, val := v, err := e } i acc =
+        jsonResultsSpec toks i acc := by
+  induction toks with
+  | nil => intro v e i acc; simp [JIt.readAllResults, JIt.next, jsonResultsSpec]
+  | cons t r ih =>
+    intro v e i acc
+    cases t with
+    | none => simp [JIt.readAllResults, JIt.next, jsonResultsSpec]
+    | some w =>
+      have := ih w false (i + 1) (w :: acc)
+      simp only [List.length_cons, JIt.readAllResults, JIt.next, jsonResultsSpec] at this ⊢
+      simpa using this
+
 /-! Non-vacuity: concrete, non-trivial instances (a depth-3 composition with a positive limit). -/
 example : (readAll (.limit 2 (.filter (fun x => x % 2 == 0) (.map (· + 1) .src)))
     (fresh [1, 2, 3, 4, 5, 6] _)).2 = [2, 4] := by decide
